@@ -8,6 +8,7 @@ import (
 	"context"
 	"errors"
 	"fmt"
+	"strings"
 	"testing"
 	"time"
 
@@ -373,11 +374,16 @@ var checkPollDensity = register("c20.polldensity", func(c PollCase) *Violation {
 			return violf("harness: %q does not parse: %v %s", c.Base, err, pan)
 		}
 		bc := newCountCtx(context.Background(), -1, nil)
-		if bo := RunQuery(bc, bp, doc); bo.Panic != "" {
+		bo := RunQuery(bc, bp, doc)
+		if bo.Panic != "" {
 			return violf("Query(%q) on a %s of %d panicked: %s", c.Base, c.Kind, c.N, bo.Panic)
 		}
-		if need := c.N / 1024; cc.polls-bc.polls < need {
-			return violf("Query(%q) on a %s document of size %d looks at the context %d times, Query(%q) %d times: the additional pass over the %d items is made with only %d looks (at least one per 1,024 items = %d expected), so a context that becomes done during it is not noticed within a bounded number of steps", c.Path, c.Kind, c.N, cc.polls, c.Base, bc.polls, c.N, cc.polls-bc.polls, need)
+		items := len(bo.Items)
+		if bo.Class != EOK || items < c.N/20 {
+			return violf("harness: base path %q returned %s / %d items on a %s of %d", c.Base, bo.Class, items, c.Kind, c.N)
+		}
+		if need := items / 1024; cc.polls-bc.polls < need {
+			return violf("Query(%q) on a %s document of size %d looks at the context %d times, Query(%q) %d times: the additional pass over its %d items is made with only %d looks (at least one per 1,024 items = %d expected), so a context that becomes done during it is not noticed within a bounded number of steps", c.Path, c.Kind, c.N, cc.polls, c.Base, bc.polls, items, cc.polls-bc.polls, need)
 		}
 	}
 	return nil
@@ -396,6 +402,24 @@ func pollCases() []PollCase {
 			PollCase{Path: "$[*][0]", Kind: "nested", N: n, Work: "n", Base: "$[*]"}, PollCase{Path: "$.keyvalue().value", Kind: "object", N: n, Work: "n", Base: "$.keyvalue()"}, PollCase{Path: "$.*.abs()", Kind: "object", N: n, Work: "n", Base: "$.*"},
 			PollCase{Path: "$.**.type()", Kind: "tree", N: n, Work: "n", Base: "$.**"}, PollCase{Path: "- $.**{2 to last}", Kind: "tree", N: n / 2, Work: "n", Base: "$.**{2 to last}"},
 			PollCase{Path: "exists($[*] ? (@ > 100))", Kind: "array", N: n, Work: "n"}, PollCase{Path: "$.** ? (@ > 100)", Kind: "tree", N: n, Work: "n"})
+	}
+	// every operation that makes one more pass over the items of a path adds its share of looks (D52): bases that
+	// return about n numbers x wrappers that handle each of them
+	for _, n := range []int{20000, 200000} {
+		for _, b := range []struct{ path, kind string }{{"$[*]", "array"}, {"$[0 to last]", "array"}, {"strict $[*]", "array"}, {"$.*", "object"}, {"$[*][*]", "nested"}, {"$[*][1]", "nested"}, {"$.**{last}", "tree"}, {"$[*] ? (@ >= 0)", "array"}, {"$.keyvalue().value", "object"}} {
+			for _, w := range []string{"-(%s)", "+(%s)", "-(-(%s))", "(%s) + 1", "1 - (%s)", "(%s).abs()", "(%s).type()", "(%s).string()", "(%s).double()", "(%s).size()", "(%s) ? (@ > 100)", "(%s) ? (@ > 100 || @ < 3)", "(%s) == 100", "(%s) > 100 && 1 == 1", "!((%s) == 100)", "((%s) == 100) is unknown", `(%s) starts with "a"`, `(%s) like_regex "a"`, "(%s)[0]", "(%s)[0 to last]", "(%s).a", "(%s).*", "(%s).bigint()", "(%s).decimal(5,1)", "(%s).floor()", "(%s).boolean()", "(%s).number().ceiling()"} {
+				base, path := b.path, fmt.Sprintf(w, strings.TrimPrefix(b.path, "strict "))
+				if strings.HasPrefix(base, "strict ") {
+					// (in strict mode these stop at the first number: a structural error, an operand that is
+					// not unwrapped and fails the singleton check without another pass, a non-string operand)
+					if strings.HasSuffix(w, "[0]") || strings.HasSuffix(w, "[0 to last]") || strings.HasSuffix(w, ".a") || strings.HasSuffix(w, ".*") || strings.HasSuffix(w, ".size()") || strings.Contains(w, " + 1") || strings.Contains(w, "1 - ") || strings.Contains(w, "starts with") || strings.Contains(w, "like_regex") {
+						continue
+					}
+					path = "strict " + path
+				}
+				out = append(out, PollCase{Path: path, Kind: b.kind, N: n, Work: "n", Base: base})
+			}
+		}
 	}
 	for _, n := range []int{300, 1500} {
 		out = append(out, PollCase{Path: "$[*] > $[*]", Kind: "array", N: n, Work: "n2"}, PollCase{Path: "strict $[*] == $[*]", Kind: "array", N: n, Work: "n2"}, PollCase{Path: `$[*] starts with "a"`, Kind: "array", N: n * n / 4, Work: "n"},
